@@ -13,7 +13,8 @@ PNone     == [t |-> "none"]
 PMissing  == [t |-> "missing"]
 PLst(e)   == [t |-> "list", e |-> e]
 PTup(e)   == [t |-> "tuple", e |-> e]
-PSet(e)   == [t |-> "set", e |-> e]                 \* e : a TLA+ set of (hashable) values
+PSet(e)   == [t |-> "set", e |-> e]                 \* e : a duplicate-free SEQUENCE of (hashable) values; order is irrelevant
+                                                    \* (JSON has no sets and TLC cannot order strings: compare with EqV / PyEq, never with =)
 PDct(e)   == [t |-> "dict", e |-> e]                \* e : sequence of [k |-> key, v |-> value], insertion ordered
 PObj(c, a) == [t |-> "obj", c |-> c, a |-> a]       \* instance of class named c with attribute record a
 PCls(n)   == [t |-> "cls", n |-> n]                 \* a class object
@@ -30,12 +31,26 @@ PyEq(v, w) ==                                        \* Python ==
   ELSE IF v.t # w.t THEN FALSE
   ELSE CASE v.t \in {"list", "tuple"} -> Len(v.e) = Len(w.e) /\ \A j \in 1..Len(v.e) : PyEq(v.e[j], w.e[j])
          [] v.t = "dict" -> Len(v.e) = Len(w.e) /\ \A j \in 1..Len(v.e) : \E m \in 1..Len(w.e) : PyEq(v.e[j].k, w.e[m].k) /\ PyEq(v.e[j].v, w.e[m].v)
-         [] v.t = "set"  -> Cardinality(v.e) = Cardinality(w.e) /\ \A x \in v.e : \E y \in w.e : PyEq(x, y)
+         [] v.t = "set"  -> Len(v.e) = Len(w.e) /\ \A j \in 1..Len(v.e) : \E m \in 1..Len(w.e) : PyEq(v.e[j], w.e[m])
+         \* spec-class instances: same class and equal attributes (missing equals only missing); plain objects: identity, i.e. the same record
+         [] v.t = "obj" -> v.c = w.c /\ DOMAIN v.a = DOMAIN w.a /\ (\A f \in DOMAIN v.a : PyEq(v.a[f], w.a[f])) /\ (DOMAIN v.a = {} => v = w)
+         [] v.t \in {"klist", "kset"} -> Len(v.e) = Len(w.e) /\ \A j \in 1..Len(v.e) : PyEq(v.e[j], w.e[j])
          [] OTHER -> v = w
 
 Truthy(v) ==
   CASE v.t = "int" -> v.i # 0 [] v.t = "bool" -> v.b [] v.t = "float" -> v.h # 0
     [] v.t \in {"str", "bytes"} -> v.s # "" [] v.t \in {"none", "missing"} -> FALSE
-    [] v.t \in {"list", "tuple", "dict"} -> v.e # <<>> [] v.t = "set" -> v.e # {}
+    [] v.t \in {"list", "tuple", "dict", "set"} -> v.e # <<>>
     [] OTHER -> TRUE
+
+\* structural equality that is strict on tags (1, True and 1.0 differ) but ignores the order of set and dict payloads
+RECURSIVE EqV(_, _)
+EqV(v, w) ==
+  IF v.t # w.t THEN FALSE
+  ELSE CASE v.t \in {"list", "tuple", "klist", "kset"} -> Len(v.e) = Len(w.e) /\ \A j \in 1..Len(v.e) : EqV(v.e[j], w.e[j])
+         [] v.t = "set"  -> Len(v.e) = Len(w.e) /\ \A j \in 1..Len(v.e) : \E m \in 1..Len(w.e) : EqV(v.e[j], w.e[m])
+         [] v.t = "dict" -> Len(v.e) = Len(w.e) /\ \A j \in 1..Len(v.e) : \E m \in 1..Len(w.e) : EqV(v.e[j].k, w.e[m].k) /\ EqV(v.e[j].v, w.e[m].v)
+         [] v.t = "obj"  -> v.c = w.c /\ DOMAIN v.a = DOMAIN w.a /\ \A f \in DOMAIN v.a : EqV(v.a[f], w.a[f])
+                            /\ (("x" \in DOMAIN v /\ "x" \in DOMAIN w) => DOMAIN v.x = DOMAIN w.x /\ \A g \in DOMAIN v.x : EqV(v.x[g], w.x[g]))
+         [] OTHER -> v = w
 =============================================================================
